@@ -128,6 +128,14 @@ def check(pid, tier, replay=None):
                       {'kind': 'proof', 'broken': res.broken, 'log': res.proof_log[-1500:]}, found_input=False)
     elif not res.proof_ok:
         res.coverage['broken_obligations'] = res.broken
+    # a reader waits for as long as the writer holds the lock: free-running probe (no scheduler), the wait loop counted through the hook
+    nspin = 300000000 if thorough else 100000000
+    rc, o, e = sh([os.path.join(BIN, 'lock_sched'), '--spinprobe', str(nspin)], timeout=300)
+    sp = [l[2:] for l in o.splitlines() if l.startswith('P ')]
+    if rc != 0 or sp or 'S spinprobe' not in o:
+        res.violation('C07 violated on the implementation: %s' % (sp[0] if sp else 'spin probe failed (rc=%d) %s' % (rc, e[-200:])),
+                      {'kind': 'property-on-implementation', 'program': 'spinprobe', 'args': ['--spinprobe', str(nspin)], 'problems': sp})
+    res.coverage['spin_probe_wait_iterations'] = nspin
     res.coverage.update({
         'evaluations': total,
         'distinct_nontrivial': len(distinct),
